@@ -29,6 +29,12 @@ def history(g, solver, needed=(), zeta=False):
     # that changes with history or hash seed shows in the last bits
     pool = [{k: r.choice(["1/3", "2/7", "3/10", "1/5", "7/9", "1/2", "4/11"])
              for k in ("beta", "gamma", "kappa", "mu") + (("zeta",) if zeta else ())} for _ in range(3)]
+    ints = r.random() < 0.35
+    if ints:
+        # whole-number values, written as Python ints by the caller (contact_rate=2): a value like any other
+        for d in pool:
+            for k in r.sample(sorted(d), r.randint(1, 2)):
+                d[k] = r.choice(["1", "2", "3"])
     calls, nh = [], 0
     for _ in range(r.randint(3, 7)):
         c = r.random()
@@ -57,6 +63,9 @@ def history(g, solver, needed=(), zeta=False):
     runs = [x for x in calls if x["call"] == "run" and len(x["params"]) == (5 if zeta else 4)]
     if runs:
         calls.append(dict(runs[0], rebuild=False))
+    if ints:
+        for c in calls:
+            c["int_params"] = True
     return calls
 
 
